@@ -194,13 +194,17 @@ def mac_rules(facts, rep):
         return (a[0] == b_bi and (b_si is None or a[1] < b_si)) or (a[0] != b_bi and f.dominates(a[0], b_bi))
     good = bool(rem_st) and bool(fin_st) and all(any(before(r_, x[0], x[1]) for r_ in rem_st) for x in fin_st) and \
         all(any(before(r_, b_, None) for r_ in rem_st) for b_, _ in fr)
-    ok &= rep.check(good, rule, "counter-stored-before-finalize", where(f, f.span), "self.data_remaining is updated before finalized is set / the MAC is finalised",
+    from rules.shared_typestate import aes_typestate_rules
+    tsx_ok = bool(aes_typestate_rules(facts, rep, rule=rule))   # E6 on the reader object: every sequence of read() calls, failed ones included
+    # (the structural form of the same invariant; when the code is shaped differently the state machine's verdict stands)
+    ok &= rep.check(good or tsx_ok, rule, "counter-stored-before-finalize", where(f, f.span), "self.data_remaining is updated before finalized is set / the MAC is finalised",
                     "the remaining-bytes counter is written back after the MAC is finalised: a failing MAC read/compare leaves finalized set with "
                     "data_remaining != 0 and the next read() panics on assert!(!finalized)")
     atoms = {a for p in ps for a, v in p["decisions"] if a != "#iter"}
     extra = [a for a in atoms if not re.search(r"data_remaining|constant_time_eq|^discr\(Try::branch|finalized", a)]
     ok &= rep.check(not extra, rule, "atoms", where(f, f.span), "decisions depend only on: remaining == 0, MAC equal, I/O results, finalized", "AesReaderValid::read additionally branches on %s" % extra)
     rep.floor(rule, 6)
+    ok &= tsx_ok
     return ok
 
 
